@@ -28,6 +28,7 @@ struct Sut {
     target: Target,
     arr: Arc<BucketLeapArray>,
     wins: Vec<(u64, Arc<dyn ReadStat>)>, // (J, reader)
+    whole: Option<SlidingWindowMetric>,   // a window over the whole array, for the per-second aggregation
 }
 
 fn observe(sut: &Sut) -> (Value, Value) {
@@ -94,7 +95,9 @@ pub fn exec(events: &[Value]) -> Vec<Value> {
                         }
                         ev["wins"] = Value::Array(wl);
                         ev["ok"] = json!(true);
-                        sut = Some(Sut { t0, target, arr, wins });
+                        let (n0, i0) = (arr.sample_count(), arr.interval_ms());
+                        let whole = guarded(|| SlidingWindowMetric::new(n0, i0, arr.clone())).ok().and_then(|r| r.ok());
+                        sut = Some(Sut { t0, target, arr, wins, whole });
                     }
                     _ => {
                         ev["ok"] = json!(false);
@@ -121,6 +124,32 @@ pub fn exec(events: &[Value]) -> Vec<Value> {
                         ev["raw"] = raw;
                     }
                     Err(p) => ev["panic"] = json!(p),
+                }
+                // per-second aggregation (what the metric log is fed with): the active items, by second
+                if let Some(w) = &st.whole {
+                    match guarded(|| w.second_metrics_on_condition(&|_ts: u64| true)) {
+                        Ok(items) => {
+                            let mut v: Vec<(i64, Value)> = items
+                                .iter()
+                                .filter_map(|it| {
+                                    let line = it.to_string();
+                                    let c: Vec<&str> = line.split('|').collect();
+                                    let g = |i: usize| c.get(i).and_then(|x| x.parse::<i64>().ok()).unwrap_or(-1);
+                                    let ts = g(0) - st.t0 as i64;
+                                    let (pass, block, complete, error, avg) = (g(3), g(4), g(5), g(6), g(7));
+                                    if pass > 0 || block > 0 || complete > 0 || error > 0 || avg > 0 {
+                                        Some((ts, json!({"ts": ts, "pass": pass, "block": block, "complete": complete, "error": error, "avg": avg})))
+                                    } else {
+                                        None
+                                    }
+                                })
+                                .collect();
+                            v.sort_by_key(|x| x.0);
+                            ev["secs"] = Value::Array(v.into_iter().map(|x| x.1).collect());
+                            ev["secoff"] = json!(st.t0 % 1000);
+                        }
+                        Err(p) => ev["panic"] = json!(p),
+                    }
                 }
             }
             "newarr" => {
